@@ -222,7 +222,13 @@ def check_record(line):
         val = compose(g, xt, allowed, d, zero)
         mag = compose(gm, xa, allowed, d, zero)
         worst = mp.mpf(0)
-        floor = mp.mpf("3e-42") if rec["f32"] else mp.mpf("1e-320")
+        # products of several tiny derivative parts underflow on the way in floating point although the exact
+        # value (1e-241, say) is representable: below 1e-200 the mpmath leg does not judge (the Rust leg has
+        # its own floor at the denormal level and judges the points near zero)
+        floor = mp.mpf("3e-42") if rec["f32"] else mp.mpf("1e-200")
+        # numerical differentiation in mpmath returns ~1e-145 where a high-order coefficient is exactly zero
+        # (sinh^(6)(0)); anything 40 orders of magnitude below the largest part is noise of this oracle
+        floor += mp.mpf("1e-40") * max([1.0] + [abs(v) for v in y if math.isfinite(v)])
         for m, got in zip(mons, y):
             want = val.get(m, mp.mpf(0)) * fact(m)
             scale = mag.get(m, mp.mpf(0)) * fact(m)
